@@ -253,4 +253,59 @@ def Summary.confusions (ref hyp : List α) : List (Option α × Option α) :=
 def aggregateConfusions (xs : List (List (Option α × Option α))) : List (Option α × Option α) :=
   xs.foldl (· ++ ·) []
 
+/-! ### Line-end statistics (`BoundaryErrorsSummary`, error_summary.py)
+
+`from_lists` classifies every pair of the alignment of `(hyp, ref)` (`get_match_type`), takes the errors after the last
+correct pair (`get_non_matching_suffix`) and sets one of six flags (`BoundaryErrorsSummary.__init__`); two `AssertionError`s
+are possible in the code (a `None`-`None` pair; an insertion and a deletion together). -/
+
+/-- `MatchTypes` of error_summary.py -/
+inductive MatchType where
+  | C | S | I | D
+  deriving DecidableEq, Repr
+
+/-- `get_match_type(ref_sym = a[1], hyp_sym = a[0])` for a pair `a = (hyp_sym, ref_sym)` of the alignment of `(hyp, ref)`;
+`none`: `AssertionError("Invalid alignment None-None")`. -/
+def matchType : Option α × Option α → Option MatchType
+  | (none, none) => none
+  | (h, r) => some (if r = h then .C else if r = none then .I else if h = none then .D else .S)
+
+def matchTypes : List (Option α × Option α) → Option (List MatchType)
+  | [] => some []
+  | p :: r =>
+    match matchType p, matchTypes r with
+    | some m, some ms => some (m :: ms)
+    | _, _ => none
+
+/-- `get_non_matching_prefix`: up to the first `C`. -/
+def nonMatchPrefix (l : List MatchType) : List MatchType := l.takeWhile (· ≠ .C)
+
+/-- `get_non_matching_suffix`: the prefix of the reversed list, reversed back. -/
+def nonMatchSuffix (l : List MatchType) : List MatchType := (nonMatchPrefix l.reverse).reverse
+
+/-- the flag `BoundaryErrorsSummary.__init__` sets (`nothing`: none of the six) -/
+inductive EndClass where
+  | correct | pureDel | mixedDel | pureIns | mixedIns | pureSub | nothing
+  deriving DecidableEq, Repr
+
+/-- `BoundaryErrorsSummary(boundary_alignment)`; `none`: `AssertionError` (insertion and deletion together). -/
+def boundaryClass (b : List MatchType) : Option EndClass :=
+  if .I ∈ b ∧ .D ∈ b then none
+  else if b.length = 0 then some .correct
+  else if .S ∈ b ∧ .D ∈ b then some .mixedDel
+  else if .S ∈ b ∧ .I ∈ b then some .mixedIns
+  else if .D ∈ b then some .pureDel
+  else if .I ∈ b then some .pureIns
+  else if .S ∈ b then some .pureSub
+  else some .nothing
+
+/-- the line-end part of `ErrorsSummary.from_lists(ref, hyp)`; `none`: an exception. -/
+def Summary.ending (ref hyp : List α) : Option EndClass :=
+  match alignment unit hyp ref with
+  | none => none
+  | some al =>
+    match matchTypes al with
+    | none => none
+    | some mts => boundaryClass (nonMatchSuffix mts)
+
 end Lev
